@@ -15,6 +15,9 @@ func init() {
 		truncatedBodyRefused(c, "C02.14")
 		wtCandidateRevision(c, "C02.15")
 		closedByPacketListener(c, "C02.16")
+		announcedBeforeDispatch(c, "C02.17")
+		deliveryOrderedWithClose(c, "C02.18")
+		v3BinaryPayloadCodec(c, "C02.19", true)
 		baseTransportEffects(c, "C02.11")
 		frameTransportEffects(c, "C02.10")
 		c02OpenGuard(c)
@@ -157,15 +160,42 @@ func c02CloseStopsPayload(c *core.Ctx) {
 	}
 	val, _ := loop.Value.(*ast.Ident)
 	isLoopVar := func(x *core.Unit, e ast.Expr) bool { return val != nil && isLocal(x.Info(), e, val.Name) }
-	var onPkts []*core.Call
+	var onPkts, afterLoop []*core.Call
 	for _, cl := range u.Calls() {
-		if cl.Name == "OnPacket" {
+		if cl.Name != "OnPacket" {
+			continue
+		}
+		if loop.Body.Pos() <= cl.Pos() && cl.Expr.End() <= loop.Body.End() {
 			onPkts = append(onPkts, cl)
+		} else {
+			afterLoop = append(afterLoop, cl)
 		}
 	}
-	okOne := len(onPkts) == 1 && val != nil && isLocal(info, onPkts[0].Arg(0), val.Name) &&
-		loop.Body.Pos() <= onPkts[0].Pos() && onPkts[0].Expr.End() <= loop.Body.End()
+	okOne := len(onPkts) == 1 && val != nil && isLocal(info, onPkts[0].Arg(0), val.Name)
 	c.Check(R, "transports.(*polling).OnData/OnPacket(loop-var)-once", u.Pos(), okOne, keyf("%d OnPacket call(s) in the loop, argument is the range value", len(onPkts)))
+	// a payload that could not be decoded to its end: the packets ahead of the malformed one were dispatched by the loop;
+	// the decoder's error is then reported as one ERROR packet (→ close with 'parse error'), never dropped (fix 78c21b4)
+	decodeFailed := nilGuard(true, func(x *core.Unit, e ast.Expr) bool {
+		d, k := x.SingleDef(e)
+		te, isT := d.(*core.TupleElem)
+		if !k || !isT || te.Index != 1 {
+			return false
+		}
+		ce, isC := ast.Unparen(te.X).(*ast.CallExpr)
+		return isC && hasSuffixAny(x.CalleeKey(ce), ".DecodePayload", ".decodePayload")
+	})
+	okErr := len(afterLoop) == 1
+	for _, cl := range afterLoop {
+		isErrPkt := false
+		ast.Inspect(cl.Arg(0), func(n ast.Node) bool {
+			if kv, isKV := n.(*ast.KeyValueExpr); isKV && pktConst(info, kv.Value, "error") {
+				isErrPkt = true
+			}
+			return true
+		})
+		okErr = okErr && isErrPkt && g.GuardedBy(cl.Loc, decodeFailed) && cl.Pos() > loop.End()
+	}
+	c.Check(R, "transports.(*polling).OnData/decode-error→ERROR-packet", u.Pos(), okErr, keyf("%d OnPacket call(s) after the loop; an ERROR packet on the err != nil edge of the payload decoder", len(afterLoop)))
 	if !okOne {
 		return
 	}
